@@ -27,6 +27,11 @@ the plain match decides. Globster.identify classifies RE:/slash patterns as full
 as basename, in that order.
 last-component-only: the extension and basename prefixes contain the negative lookahead (?!.*/) (parsed with re._parser)
 that confines those patterns to the last path component.
+Third round: user-regex-decapture is now a table (the _sub_re rules are read from the source and applied, with a small model of
+Replacer, to ten RE: patterns; the result must compile with no capturing group) instead of a comparison of the rule's text;
+user-regex-language-preserved — differential table: the user's regex and its translation fully match the same strings of
+length <= 4 over the pattern's characters plus ':' and '?', per class (plain groups, escaped paren, paren in a char group,
+named groups).
 Does not decide: glob -> regex translation semantics for arbitrary patterns.
 """
 REPLACERS = ["_sub_named", "_sub_re", "_sub_fullpath", "_sub_basename"]
@@ -80,9 +85,85 @@ def run(ctx):
                     g = sum(capturing_groups_in_fragment(l) for l in lits)
                     ctx.check("no-capturing-template", where, g == 0, f"helper {repl.id} returns no capturing group (literals {lits})", construct=str(lits))
     ctx.require(n_tpl >= 20, f"only {n_tpl} replacement templates found (hand-confirmed: 24)")
-    # user regexes: "(" -> "(?:"
-    decap = [s for s in ast.walk(mod.tree) if isinstance(s, ast.Call) and call_attr(s) == "add" and call_recv(s) == "_sub_re" and const_value(s.args[0]) == "\\((?!\\?)"]
-    ctx.check("user-regex-decapture", f"{GF}:_sub_re", len(decap) == 1 and const_value(decap[0].args[1]) == "(?:", "plain '(' in a user RE: pattern is rewritten to '(?:'")
+    # user regexes: whatever the `_sub_re` rules are, no capturing group survives the translation (Globster.match maps
+    # match.lastindex to the pattern list, one group per pattern).  The rules are read from the source and applied with a
+    # small model of Replacer (one pass, leftmost match, first rule wins, `\&` = the matched text) to a table of RE: patterns.
+    import re as _re
+
+    rules_re = []
+    for s_ in ast.walk(mod.tree):
+        if isinstance(s_, ast.Call) and call_attr(s_) == "add" and call_recv(s_) == "_sub_re" and len(s_.args) == 2:
+            pat_, rep_ = const_value(s_.args[0], None), s_.args[1]
+            ctx.require(isinstance(pat_, str), f"{GF}:_sub_re.add: non-constant pattern {norm(s_.args[0])}")
+            if isinstance(rep_, ast.Constant) and isinstance(rep_.value, str):
+                rules_re.append((pat_, rep_.value))
+            elif isinstance(rep_, ast.Call) and norm(rep_.func) == "_invalid_regex" and rep_.args and isinstance(const_value(rep_.args[0], None), str):
+                rules_re.append((pat_, const_value(rep_.args[0])))
+            else:
+                rules_re.append((pat_, None))  # a function: modelled as leaving the text alone (the table avoids its cases)
+    ctx.require(len(rules_re) >= 3, f"{GF}: only {len(rules_re)} _sub_re rules found")
+    combined = _re.compile("|".join(f"({p})" for p, _ in rules_re))
+    offsets, k_ = [], 1
+    for p, _ in rules_re:
+        offsets.append(k_)
+        k_ += 1 + _re.compile(p).groups
+
+    def _translate(text):
+        def rep(m):
+            for (p, r_), off in zip(rules_re, offsets):
+                if m.group(off) is not None:
+                    return m.group(0) if r_ is None else r_.replace("\\&", m.group(0))
+            return m.group(0)
+
+        return combined.sub(rep, text)
+
+    table_re = ["RE:a(b)c", "RE:(a|b)", "RE:((a)b)", "RE:x\\\\(a|b)", "RE:x\\\\\\\\(a|b)y", "RE:(?:a)(b)", "RE:a(?=b)(c)", "RE:[ab](c)", "RE:(a)(b)(c)", "RE:foo/(bar|baz)/.*"]
+    leaks = []
+    for src_ in table_re:
+        out = _translate(src_)
+        try:
+            groups = _re.compile(out).groups
+        except _re.error as e_:
+            leaks.append(f"{src_!r} -> {out!r} does not compile ({e_})")
+            continue
+        if groups:
+            leaks.append(f"{src_!r} -> {out!r} keeps {groups} capturing group(s)")
+    ctx.fact(len(table_re))
+    ctx.check("user-regex-decapture", f"{GF}:_sub_re", not leaks, f"translating {len(table_re)} RE: patterns (nested groups, groups after escaped backslashes, look-aheads, several groups) leaves no capturing group", construct="; ".join(leaks)[:300], message=f"a user regex keeps a capturing group after translation ({'; '.join(leaks)[:300]}): Globster.match maps match.lastindex to the pattern list, so every pattern after it in the same batch is reported off by one — the reported pattern is not one that matches, and the result depends on how the patterns are grouped")
+    # the translation keeps the language of the user's regex (differential table: the user's regex against its translation,
+    # full match over all strings of length <= 4 over the pattern's own characters plus ':' and '?')
+    import itertools as _it
+
+    LANG = [
+        ("plain-groups", "RE:a(b)c"), ("plain-groups", "RE:(a|b)"), ("plain-groups", "RE:x\\\\(a|b)"), ("plain-groups", "RE:(?:a)(b)"),
+        ("escaped-paren", "RE:a\\(b\\)"), ("paren-in-class", "RE:[(]x"), ("named-groups", "RE:(?P<a>x)(?P<b>y)"),
+    ]
+    by_class = {}
+    for cls_, src_ in LANG:
+        r0 = src_[3:]
+        r1 = _translate(src_)
+        alpha = sorted({ch for ch in r0 if ch.isalnum() or ch in "()"} | {":", "?"})
+        try:
+            c0, c1 = _re.compile(r0), _re.compile(r1)
+        except _re.error as e_:
+            by_class.setdefault(cls_, []).append(f"{src_!r} -> {r1!r}: {e_}")
+            continue
+        for k in range(0, 5):
+            hit = None
+            for t in _it.product(alpha, repeat=k):
+                s__ = "".join(t)
+                if bool(c0.fullmatch(s__)) != bool(c1.fullmatch(s__)):
+                    hit = s__
+                    break
+            if hit is not None:
+                by_class.setdefault(cls_, []).append(f"{src_!r} is translated to {r1!r}, which {'matches' if c1.fullmatch(hit) else 'does not match'} {hit!r} (the user's regex {'matches' if c0.fullmatch(hit) else 'does not'})")
+                break
+    ctx.fact(len(LANG))
+    for cls_ in sorted({c for c, _ in LANG}):
+        if cls_ not in by_class:
+            ctx.check("user-regex-language-preserved", f"{GF}:_sub_re[{cls_}]", True, f"RE: patterns of class {cls_} match the same strings before and after translation")
+        else:
+            ctx.violation("user-regex-language-preserved", f"{GF}:_sub_re[{cls_}]", by_class[cls_][0][:200], f"the translation of a user regex changes what it matches ({cls_}): {by_class[cls_][0]} — a path is reported ignored (or not) against the documented meaning of the RE: pattern")
     # prefixes
     gl = repo.cls(GF, "Globster")
     pi = [s for s in gl.body if isinstance(s, ast.Assign) and norm(s.targets[0]) == "pattern_info"]
@@ -193,6 +274,8 @@ def run(ctx):
 
 
 MUTANTS = [
+    Mutant("escaped parens rewritten again (fix 720ceeb reverted, first rule)", GF, '_sub_re.add(r"\\\\.", r"\\&")  # keep anything backslashed: \\( is not a group\n', '', expect="user-regex-language-preserved"),
+    Mutant("named-group rule greedy again (fix 720ceeb reverted, third rule)", GF, '_sub_re.add("\\\\(\\\\?P<[^>]*>", _invalid_regex("(?:"))', '_sub_re.add("\\\\(\\\\?P<.*>", _invalid_regex("(?:"))', expect="user-regex-language-preserved"),
     Mutant("extension prefix loses the no-more-slash assertion", GF, "            \"prefix\": r\"(?:.*/)?(?!.*/)(?:.*\\.)\",", "            \"prefix\": r\"(?:.*\\.)\",", expect="last-component-only"),
     Mutant("capturing replacement for **/", GF, "r\"(?:.*/)?\")  # **/ after ^ or /", "r\"(.*/)?\")  # **/ after ^ or /", expect="no-capturing-template"),
     Mutant("batch slices disagree", GF, "            grouped_rules = [f\"({translator(pat)})\" for pat in patterns[:99]]", "            grouped_rules = [f\"({translator(pat)})\" for pat in patterns[:98]]", expect="batch-constant"),
